@@ -16,26 +16,91 @@ From MxlGen Require Import SymRepr MxlGen GenMxlGenFacts.
 Import ListNotations.
 Open Scope string_scope.
 
-(** harness names: 0 = "time", k = "n%04d" *)
+(** harness names (harness/c11.py nm/un): id = k + 10000 * c;
+    k: 0 = "time", 9001.. = "a" "b" "c" "s1" "s2" "k" (the parameter names of the function library:
+    model components called like the formal parameters of the functions applied to them),
+    otherwise "n%04d";  c: a suffix that makes the name look like one of the generator's fresh
+    names ("_1", "_2", "_1_1", "_3") *)
 Definition digit (n : N) : string := String (ascii_of_N (48 + N.modulo n 10)) EmptyString.
-Definition nstr (n : name) : string :=
-  if N.eqb n 0 then "time"
-  else "n" ++ digit (n / 1000) ++ digit (n / 100) ++ digit (n / 10) ++ digit n.
+Definition base_str (k : N) : string :=
+  match k with
+  | 0%N => "time"
+  | 9001%N => "a" | 9002%N => "b" | 9003%N => "c" | 9004%N => "s1" | 9005%N => "s2" | 9006%N => "k"
+  | _ => "n" ++ digit (k / 1000) ++ digit (k / 100) ++ digit (k / 10) ++ digit k
+  end.
+Definition suffix_str (c : N) : string :=
+  match c with
+  | 0%N => "" | 1%N => "_1" | 2%N => "_2" | 3%N => "_1_1" | 4%N => "_3"
+  | _ => "_x" ++ digit (c / 10) ++ digit c
+  end.
+Definition nstr (n : name) : string := base_str (N.modulo n 10000%N) ++ suffix_str (N.div n 10000%N).
 
-Record fent := mkF { fe_name : string; fe_sem : N; fe_arity : nat; fe_ok : bool }.
+(** a Python function object: its __name__, the FnLib body it is made of, its arity, whether
+    fn_to_sympy translates it, and which of its parameters the body is applied to:
+    object(x_0, .., x_{arity-1}) = FnLib body [fe_sem] at [x_i for i in fe_sel]
+    (so "b - a" is body 3 with selection [1; 0], "f(a, b) = a" is body 0 with arity 2 and selection [0]);
+    [fe_formals] = its own parameter names as model-name ids (used by the sequential-renaming
+    regression witness only) *)
+Record fent := mkFent { fe_name : string; fe_sem : N; fe_arity : nat; fe_ok : bool;
+                        fe_sel : list nat; fe_formals : list name }.
+Definition std_formals : list name := [9001%N; 9002%N; 9003%N].
+Definition mkF (n : string) (s : N) (a : nat) (ok : bool) : fent :=
+  mkFent n s a ok (seq 0 a) (firstn a std_formals).
 Definition ftab := list fent.
+
+Fixpoint select {A} (I : list nat) (l : list A) : option (list A) :=
+  match I with
+  | [] => Some []
+  | i :: r => match nth_error l i, select r l with
+              | Some v, Some t => Some (v :: t)
+              | _, _ => None
+              end
+  end.
 Definition fent_at (t : ftab) (f : fnid) : option fent := nth_error t (N.to_nat f).
 
 Definition c_fname (t : ftab) (f : fnid) : string :=
   match fent_at t f with Some e => fe_name e | None => "" end.
 Definition c_fsem (t : ftab) (f : fnid) (vs : list Z) : option Z :=
-  match fent_at t f with Some e => FnLib.fsem (fe_sem e) vs | None => None end.
+  match fent_at t f with
+  | Some e => if Nat.eqb (length vs) (fe_arity e)
+              then match select (fe_sel e) vs with Some ws => FnLib.fsem (fe_sem e) ws | None => None end
+              else None
+  | None => None
+  end.
 
 Definition cexpr : Type := (N * list name)%type.
 Definition c_translate (t : ftab) (f : fnid) (margs : list name) : option cexpr :=
   match fent_at t f with
-  | Some e => if fe_ok e && Nat.eqb (length margs) (fe_arity e) then Some (fe_sem e, margs) else None
+  | Some e => if fe_ok e && Nat.eqb (length margs) (fe_arity e)
+              then match select (fe_sel e) margs with Some sm => Some (fe_sem e, sm) | None => None end
+              else None
   | None => None
+  end.
+
+(** the shape of seeded change C11-3 for this instance: the body over the function's OWN parameter
+    names, then one replacement after the other *)
+Definition replace_name (x y : name) (l : list name) : list name :=
+  map (fun z => if N.eqb z x then y else z) l.
+Fixpoint subs_seq (pairs : list (name * name)) (l : list name) : list name :=
+  match pairs with
+  | [] => l
+  | (x, y) :: r => subs_seq r (replace_name x y l)
+  end.
+Definition c_translate_seq (t : ftab) (f : fnid) (margs : list name) : option cexpr :=
+  match fent_at t f with
+  | Some e => if fe_ok e && Nat.eqb (length margs) (fe_arity e) && Nat.eqb (length (fe_formals e)) (fe_arity e)
+              then match select (fe_sel e) (fe_formals e) with
+                   | Some own => Some (fe_sem e, subs_seq (combine (fe_formals e) margs) own)
+                   | None => None
+                   end
+              else None
+  | None => None
+  end.
+Definition c_translate_by (rn : rn_mode) (t : ftab) : fnid -> list name -> option cexpr :=
+  match rn with
+  | RnDelegated => c_translate t
+  | RnSequential => c_translate_seq t
+  | RnUnknown => fun _ _ => None
   end.
 Definition c_eval (e : cexpr) (en : env) : option Z :=
   match lookups (snd e) en with Some vs => FnLib.fsem (fst e) vs | None => None end.
@@ -57,6 +122,17 @@ Definition c_same_fn (q p : cexpr * list name) : bool :=
   N.eqb (fst (fst q)) (fst (fst p))
   && Nat.eqb (length (snd q)) (length (snd p))
   && list_eqb Nat.eqb (positions q) (positions p).
+
+(** [a[0] == b[0]] of seeded change C11-2 for this instance: the substituted expressions are the
+    same body at the same model names *)
+Definition c_subst_eq (q p : cexpr * list name) : bool :=
+  N.eqb (fst (fst q)) (fst (fst p)) && list_eqb N.eqb (snd (fst q)) (snd (fst p)).
+Definition c_interchange (ic : ic_test) : cexpr * list name -> cexpr * list name -> bool :=
+  interchange_test ic c_subst_eq c_same_fn.
+
+(** the parameter names written into the text of a def *)
+Definition emitted_params (renamed : bool) (check : pn_check) (args : list name) : option (list string) :=
+  if renamed then parameter_names check (map nstr args) else Some (map nstr args).
 
 (** ---- comparison helpers --------------------------------------------------------------- *)
 
@@ -105,7 +181,7 @@ Definition obs_state : Type :=
 Record observed := mkObs {
   o_tag : N;                                  (* 0 built | 1 generation raised ValueError | 2 SyntaxError
                                                  | 3 NameError | 4 KeyError | 5 anything else *)
-  o_defs : list (string * list name);         (* emitted defs: name, parameter names; in order *)
+  o_defs : list (string * list string);       (* emitted defs: name, parameter names AS WRITTEN; in order *)
   o_ops : list addop;                         (* emitted builder chain *)
   o_pts : list (list (list Z * Z));           (* per def: (arguments, returned value) samples *)
   o_names : list (list name);                 (* rebuilt: variables, parameters, derived, reactions *)
@@ -120,8 +196,12 @@ Definition res_is {A} (eqb : A -> A -> bool) (r : res A) (x : A) : bool :=
   match r with Val a => eqb a x | Err _ => false end.
 
 Definition shape_ok (c : code cexpr) (o : observed) : bool :=
-  list_eqb2 (fun (d : string * (cexpr * list name)) (od : string * list name) =>
-               String.eqb (fst d) (fst od) && namesb (snd (snd d)) (snd od)) (c_defs c) (o_defs o)
+  list_eqb2 (fun (d : string * (cexpr * list name)) (od : string * list string) =>
+               String.eqb (fst d) (fst od)
+               && match emitted_params (c_renamed c) (gf_param_check gen_mxlgen_facts) (snd (snd d)) with
+                  | Some ps => list_eqb String.eqb ps (snd od)
+                  | None => false
+                  end) (c_defs c) (o_defs o)
   && list_eqb addop_eqb (c_ops c) (o_ops o).
 
 Definition pts_ok (c : code cexpr) (o : observed) : bool :=
@@ -140,7 +220,8 @@ Definition state_ok (fs : fnid -> list Z -> option Z) (m : model) (ch : cache) (
 
 Definition c11_case_ok (c : c11_case) : bool :=
   let '(t, m, o) := c in
-  match generate cexpr nstr (c_fname t) (c_translate t) c_same_fn gen_mxlgen_facts m with
+  match generate cexpr nstr (c_fname t) (c_translate_by (gf_rename gen_mxlgen_facts) t)
+                 (c_interchange (gf_interchange gen_mxlgen_facts)) gen_mxlgen_facts m with
   | None => N.eqb (o_tag o) 1
   | Some code =>
     shape_ok code o &&
